@@ -627,3 +627,16 @@ Qed.
 Lemma aesm_args_of_snoc opts o :
   aesm_args_of (opts ++ [o]) = aesm_apply_option (aesm_args_of opts) o.
 Proof. unfold aesm_args_of. rewrite fold_left_app. reflexivity. Qed.
+
+Lemma aesm_args_of_selected opts :
+  aa_mode (aesm_args_of opts) = aess_selected_mode opts /\
+  aa_iv (aesm_args_of opts) = aess_selected_iv opts.
+Proof.
+  induction opts as [|o opts [IHm IHi]] using rev_ind; [split; reflexivity|].
+  rewrite aesm_args_of_snoc. unfold aess_selected_mode, aess_selected_iv in *.
+  rewrite rev_app_distr. cbn [rev app find].
+  destruct o as [| |iv]; cbn [aesm_apply_option aess_is_mode aess_is_iv aa_mode aa_iv].
+  - split; [reflexivity | exact IHi].
+  - split; [reflexivity | exact IHi].
+  - destruct iv as [|x iv]; cbn [aa_mode aa_iv]; split; try assumption; reflexivity.
+Qed.
